@@ -728,6 +728,8 @@ type EnvStruct2 struct {
 	Ll [][]string        `yae:"ll"`
 	Lo []Inner2          `yae:"lo"`
 	Mo map[string]Inner2 `yae:"mo"`
+	// keyed by time values, three of them within one second: keys are told apart at full resolution
+	Mt map[time.Time]int `yae:"mt"`
 }
 
 func strp(s string) *string { return &s }
@@ -744,6 +746,10 @@ func envAltStruct() interface{} {
 		Ll: [][]string{{"a", "b"}, {"c"}},
 		Lo: []Inner2{{"a", 1, []int{}}, {"b", 2, []int{3}}},
 		Mo: map[string]Inner2{"u": {"a", 1, []int{4}}, "v": {"b", 2, []int{5}}},
+		Mt: map[time.Time]int{
+			time.Unix(1600000000, 100000000).UTC(): 1, time.Unix(1600000000, 200000000).UTC(): 2,
+			time.Unix(1600000000, 300000001).UTC(): 3, time.Unix(1600000002, 0).UTC(): 4,
+		},
 	}
 }
 
@@ -793,7 +799,7 @@ func envAltMap() interface{} {
 	e := envAltStruct().(*EnvStruct2)
 	return map[string]interface{}{
 		"n": e.N, "x": e.X, "s": e.S, "b": e.B, "l": e.L, "ls": e.Ls, "m": e.M, "mi": e.Mi,
-		"o": e.O, "p": e.P, "t": e.T, "ll": e.Ll, "lo": e.Lo, "mo": e.Mo,
+		"o": e.O, "p": e.P, "t": e.T, "ll": e.Ll, "lo": e.Lo, "mo": e.Mo, "mt": e.Mt,
 	}
 }
 
@@ -920,7 +926,7 @@ var genericSrcs = []string{
 	"string(n) + string(l)", "get(l, 0, l[1])", "get(m, \"k1\", m[\"k2\"])", "if(b, n, x)", "b ? l : [n]",
 	"{a: n, b: l}", "[n, x]", "union(l, [n])", "intersect(l, [l[0], x])", "diff(l, l)", "isset(m, \"k1\") && isset(mi, 1)",
 	"get(mi, 1, mi[2])", "o.id == o.id", "[o.id, o.id]", "string(o)", "len(ll[0])", "lo[0].name == lo[1].name",
-	"mo[\"u\"].id", "[n: l, x: l]", "get(p.b, p.a)", "[p.a, get(p.b, p.a)]", "union(lo, lo) == lo", "m == m && mi == mi",
+	"mo[\"u\"].id", "[n: l, x: l]", "get(p.b, p.a)", "[p.a, get(p.b, p.a)]", "union(lo, lo) == lo", "m == m && mi == mi", "string(mt)", "len(mt) + len(m)", "[mt, mt][0] == mt",
 	"[m[\"k1\"], m[\"k2\"]] == [m[\"k1\"], m[\"k2\"]]", "string([n: x])", "print(n) == n",
 	"[print(n), print(x)]", "print(s) == print(s)", "print(o).id", "len(print(l)) + len(print(m))", "print(string(print(ls)))",
 	// empty literals (the checker annotates their nodes like any other)
@@ -994,6 +1000,11 @@ var progPool = []Prog{
 	{"string([0.1 + 0.2: \"sum\", 0.3: \"lit\", 7: \"seven\"])", "none", false, false},
 	{"[0.0000000001: 1, 0.0000000002: 2, 0.0000000003: 3, 0.00000000015: 4]", "none", false, false},
 	{"[x - x + 0.1 + 0.2: s, 0.3: \"lit\", 0.30000000001: \"near\"]", "map", false, false},
+	// string() of something that is a str already, as the left operand of a concatenation
+	{"string(s) + \"!\"", "map", false, false},
+	{"string(\"item\") + \"#\" + string(n)", "struct", false, false},
+	{"string(o.name) + s + string(ls[0])", "map", false, false},
+	{"string(ls[0]) + \"x\" + ls[0]", "struct", false, false},
 	{"string(t)", "map", false, false},
 	{"[t, '2020-01-02 03:04:05']", "struct", false, false},
 	{"{w: t, z: strtotime(\"@86400\")}", "map", false, false},
